@@ -122,6 +122,24 @@ package getoptions
 //@   modifies
 //@ end
 
+// Vocabulary of the per-iteration (two-state) clauses of the argument loop. old_iter(e) is e at the head of
+// the iteration, i.e. before the loop condition advances the iterator to the token handled by this iteration.
+//@ spec func I0() int = old_iter(iterator.idx) + 1
+//@ spec func Tok() string = args[I0()]
+//@ spec func N0() *programTree = old_iter(currentProgramNode)
+//@ spec func Parsing() bool = completionMode == "" && I0() < len(args)
+//@ spec func Positional() bool = Parsing() && Tok() != "--" && !LooksLikeOption(Tok())
+// Nothing about any option record or any receiver variable changed during this iteration.
+//@ spec func OptsSameIter() bool = (forall o *option.Option :: o.Called == old_iter(o.Called) && o.UsedAlias == old_iter(o.UsedAlias))
+//@     && (forall r *bool :: *r == old_iter(*r)) && (forall r *string :: *r == old_iter(*r))
+//@     && (forall r *int :: *r == old_iter(*r)) && (forall r *float64 :: *r == old_iter(*r))
+//@     && (forall r *[]string :: r != &args ==> eqseq(*r, old_iter(*r)))
+//@     && (forall r *[]int :: eqseq(*r, old_iter(*r))) && (forall r *[]float64 :: eqseq(*r, old_iter(*r)))
+//@     && (forall m map[string]string :: (forall k string :: (k in m) == old_iter(k in m) && m[k] == old_iter(m[k])))
+// Text and unknown-option lists of every node other than n are as at the head of the iteration.
+//@ spec func OthersSameIter(n *programTree) bool = forall m *programTree :: m != n ==> eqseq(m.ChildText, old_iter(m.ChildText)) && eqseq(m.UnknownOptions, old_iter(m.UnknownOptions))
+//@ spec func UnkSameIter(n *programTree) bool = eqseq(n.UnknownOptions, old_iter(n.UnknownOptions))
+
 //@ func parseCLIArgs
 //@   props C19
 //@   requires parse.tree: tree != nil && TreeOK()
@@ -134,6 +152,20 @@ package getoptions
 //@     invariant args.same: eqseq(args, old(args))
 //@     invariant node.ok: currentProgramNode != nil && allocated(currentProgramNode)
 //@     decreases len(args) - iterator.idx
+//@     step term.stops {C04,C03}: Parsing() && Tok() == "--" ==> $exit && currentProgramNode == N0()
+//@       && isconcat_tail(N0().ChildText, old_iter(N0().ChildText), args, I0() + 1)
+//@       && UnkSameIter(N0()) && OthersSameIter(N0()) && OptsSameIter()
+//@     step text.stop {C09,C03}: Positional() && !(Tok() in N0().ChildCommands) && N0().requireOrder ==> $exit && currentProgramNode == N0()
+//@       && isconcat_tail(N0().ChildText, old_iter(N0().ChildText), args, I0())
+//@       && UnkSameIter(N0()) && OthersSameIter(N0()) && OptsSameIter()
+//@     step text.keep {C03}: Positional() && !(Tok() in N0().ChildCommands) && !N0().requireOrder ==> !$exit && currentProgramNode == N0()
+//@       && isappend1(N0().ChildText, old_iter(N0().ChildText), Tok()) && iterator.idx == I0()
+//@       && UnkSameIter(N0()) && OthersSameIter(N0()) && OptsSameIter()
+//@     step cmd.descend {C10,C03}: Positional() && (Tok() in N0().ChildCommands) ==> !$exit && currentProgramNode == N0().ChildCommands[Tok()]
+//@       && iterator.idx == I0() && OptsSameIter()
+//@     step cmd.carry {C03,C08}: forall c *programTree :: Positional() && (Tok() in N0().ChildCommands) && c == currentProgramNode ==>
+//@       isconcat(c.ChildText, old_iter(c.ChildText), old_iter(N0().ChildText))
+//@       && isconcat(c.UnknownOptions, old_iter(c.UnknownOptions), old_iter(N0().UnknownOptions))
 //@   loop "for k, v := range currentProgramNode.ChildOptions"
 //@     invariant comp.lastopt: (exists i int :: 0 <= i && i < len(completions) && completions[i] != "-") ==> lastOpt != nil
 //@   loop "for _, e := range lastOpt.SuggestedValues"@2
